@@ -2,6 +2,8 @@
 
 usage: python -m vf.tools.crash_run <scenario> '<plan json>' <prepared dir>
 exit status 137 = killed at the planned effect, 0 = scenario completed (effect not reached), other = exception.
+The check itself forks its worker instead (c38._run_child: same scenario, same injector, no interpreter start-up);
+this entry point reproduces one crash by hand in a pristine interpreter.
 """
 
 import json
@@ -9,13 +11,12 @@ import sys
 
 
 def main():
-    from vf.core import effects
     from vf.props import c38
 
     name, plan, d = sys.argv[1], json.loads(sys.argv[2]), sys.argv[3]
     sc = c38.Scenario(name, d)
     sc.attach()
-    with effects.Injector({int(k): v for k, v in plan.items()}) as inj:
+    with c38._injector({int(k): v for k, v in plan.items()}) as inj:
         sc.run(inj)
 
 
